@@ -965,9 +965,15 @@ class ExpressionTransform:
             language=Builtin("target_language")
         )
 
-        # A value of None (the attribute is dropped) is not translated
+        # A value of None (the attribute is dropped) is not translated,
+        # nor is an empty text which is its own message id.
+        if node.msgid is not None:
+            test = "TARGET is not None"
+        else:
+            test = "TARGET is not None and TARGET != ''"
+
         return self._translate(node.node, target) + [ast.If(
-            test=template("TARGET is not None", TARGET=target, mode="eval"),
+            test=template(test, TARGET=target, mode="eval"),
             body=translation,
             orelse=[],
         )]
